@@ -7,7 +7,9 @@ import (
 	"strings"
 
 	sdkmath "cosmossdk.io/math"
+	warptypes "github.com/bcp-innovations/hyperlane-cosmos/x/warp/types"
 	sdk "github.com/cosmos/cosmos-sdk/types"
+	gogoproto "github.com/cosmos/gogoproto/proto"
 
 	"orbverif/fw"
 	"orbverif/run"
@@ -268,6 +270,9 @@ func CheckC01(e *fw.Env, l *Lab) {
 	if e.Shard == 3%e.Shards {
 		genesisNearLimitC01(e, l)
 	}
+	if e.Shard == 4%e.Shards && !l.W.Cfg.SkipHyperlane {
+		reusedTokenIDC01(e, l)
+	}
 	// Mode C: the orbiter middleware directly around ICS-20 (no blockibc), same oracle.
 	nc := e.N(1500, 60000)
 	mod := l.W.OrbiterStack()
@@ -353,5 +358,71 @@ func genesisNearLimitC01(e *fw.Env, l *Lab) {
 		MonC02(e.Res, o)
 		attachSetup(e.Res, before, map[string]any{"genesis": "statistics of the route at 2^256-1-500000, count at 2^64-1"})
 		e.Res.Sig("near-limit-genesis|fee=%v|%s", i%2 == 1, outcomeClass(o))
+	}
+}
+
+// reusedTokenIDC01: warp token ids come from a sequence kept in state, so a token created in a
+// transaction that is later discarded (failed transaction, simulation) hands its id to the next
+// token created. History: on a discarded branch a collateral token for uusdc is created and used
+// by an orbiter transfer; on the real branch the next token created (same id) is uusdn
+// collateral, the orbiter account holds uusdn, and a uusdc packet names that id.
+func reusedTokenIDC01(e *fw.Env, l *Lab) {
+	w := l.W
+	owner := w.K("hypowner").String()
+	create := func(ctx sdkCtx, denom string) ([]byte, error) {
+		hr := w.Handle(ctx, &warptypes.MsgCreateCollateralToken{Owner: owner, OriginMailbox: w.Hyp.Mailbox, OriginDenom: denom})
+		if hr.Err != nil {
+			return nil, hr.Err
+		}
+		var resp warptypes.MsgCreateCollateralTokenResponse
+		if len(hr.Resp.MsgResponses) != 1 {
+			return nil, fmt.Errorf("no response")
+		}
+		if err := gogoproto.Unmarshal(hr.Resp.MsgResponses[0].Value, &resp); err != nil {
+			return nil, err
+		}
+		hr = w.Handle(ctx, &warptypes.MsgEnrollRemoteRouter{Owner: owner, TokenId: resp.Id, RemoteRouter: &warptypes.RemoteRouter{
+			ReceiverDomain: 1, ReceiverContract: "0x000000000000000000000000000000000000000000000000000000000000beef", Gas: sdkmath.NewInt(50_000)}})
+		return resp.Id.Bytes(), hr.Err
+	}
+	zero := "0"
+	mint := make([]byte, 32)
+	mint[31] = 5
+	transfer := func(ctx sdkCtx, tok []byte, denom string) *run.Obs {
+		rt := spec.Route{Kind: "hyp", Domain: 1, TokenID: tok, Recipient: mint, GasLimit: &zero, MaxFee: &spec.Coin{Denom: world.USDN, Amount: "0"}}
+		t := run.Transfer{Pair: w.Channels[0], Denom: denom, Amount: "400000", Sender: w.K("bob").String(), Receiver: OrbiterReceiver(), Spec: &spec.Spec{Route: rt}}
+		return run.Do(w, ctx, t, run.Mode{Kind: "H"})
+	}
+	for _, pairDenoms := range [][2]string{{world.USDC, world.USDN}, {world.USDN, world.USDC}} {
+		a, b := pairDenoms[0], pairDenoms[1]
+		// discarded branch
+		d, _ := l.Base.CacheContext()
+		idA, err := create(d, a)
+		if err != nil {
+			e.Res.Inconc("token creation on the discarded branch: %v", err)
+			return
+		}
+		oa := transfer(d, idA, a)
+		// real branch
+		ctx, _ := l.Base.CacheContext()
+		idB, err := create(ctx, b)
+		if err != nil {
+			e.Res.Inconc("token creation: %v", err)
+			return
+		}
+		if string(idA) != string(idB) {
+			e.Res.Count("reused-token-id:ids-differ")
+			continue
+		}
+		Deposit(w, ctx, w.K("carol"), b, big.NewInt(5_000_000))
+		o := transfer(ctx, idB, a)
+		e.Res.Eval()
+		before := len(e.Res.Violations)
+		MonPanic(e.Res, o)
+		MonC01(e.Res, o)
+		MonC02(e.Res, o)
+		attachSetup(e.Res, before, map[string]any{"history": "a token with this id was created for " + a + " and used on a branch that was discarded; the committed token with the same id is " + b + " collateral; the orbiter account holds 5000000" + b,
+			"discarded_branch_transfer": oa.Res.String()})
+		e.Res.Sig("reused-token-id|%s-then-%s|discarded=%s|real=%s", a, b, outcomeClass(oa), outcomeClass(o))
 	}
 }
